@@ -425,6 +425,49 @@ def x86ni_counter_lanes(chk):
                           key='%s %d' % (R, k))
 
 
+def x86ni_cbcdec_iv(chk):
+    """CBC decryption leaves, as IV for the next call, the last *ciphertext* block of this call (SP 800-38A 6.2).  The AES-NI code
+    decrypts four blocks at a time in place, with separate tails for 1, 2 and 3 remaining blocks, so the block to keep differs in
+    each path.  Partial evaluation with len pinned over every tail shape: the value finally stored to the IV buffer is the load of
+    data[len - 16 .. len)."""
+    from .. import oblig, fold
+    R = 'cbcdec-iv-is-last-ciphertext-block'
+    src, fn = 'src/symcipher/aes_x86ni_cbcdec.c', 'br_aes_x86ni_cbcdec_run'
+    U = oblig.funit(src)
+    if fn not in U.funcs:
+        raise AnalysisBroken('%s vanished' % fn)
+    F = U.func(fn)
+    ps = F.f['params']
+    n = 0
+    for ln in (16, 32, 48, 64, 80, 96, 112):
+        Fo = U.optimise(fn, [dict(kind='pin', n=ps[3]['n'], value=ln, param=True)], ())
+        srcs = []
+        for i in sorted(fold._reach_insts(Fo), key=lambda i: i['id']):
+            if i['op'] != 'store':
+                continue
+            b, o = Fo.addr_of(i['ops'][1])
+            if b != {'k': 'a', 'v': 1} or o != 0:
+                continue
+            v = i['ops'][0]
+            d = 'a computed value'
+            if v['k'] == 'i':
+                vi = Fo.insts[v['v']]
+                while vi['op'] == 'bitcast' and vi['ops'][0]['k'] == 'i':
+                    vi = Fo.insts[vi['ops'][0]['v']]
+                if vi['op'] == 'load':
+                    sb, so = Fo.addr_of(vi['ops'][0])
+                    d = so if sb == {'k': 'a', 'v': 2} else 'a load from elsewhere'
+            srcs.append(d)
+        n += 1
+        inst = '%s: %d bytes => the IV left for the next call is ciphertext block at offset %d' % (fn, ln, ln - 16)
+        if srcs and srcs[-1] == ln - 16:
+            chk.ok(R, inst, src)
+        else:
+            chk.violation(R, inst, src, 'the IV buffer finally receives %s' % ('nothing' if not srcs else 'the input block at offset %s' % srcs[-1] if isinstance(srcs[-1], int) else srcs[-1]),
+                          key='%s %d' % (R, ln))
+    chk.floor('cbcdec tail shapes', n, 7)
+
+
 def run(tier):
     chk = report.Check('C12', tier,
                        'Constant tables of the symmetric primitives compared with values generated from their standards (FIPS 197 S-box, inverse '
@@ -536,6 +579,7 @@ def run(tier):
     ghash_pclmul_tail(chk)
     empty_chunk_is_identity(chk)
     x86ni_counter_lanes(chk)
+    x86ni_cbcdec_iv(chk)
     from .. import lints as _l
     _l.tail_copy_from_running_pointer(chk, ('src/symcipher/', 'src/hash/'))
     _l.limb_split_consistent(chk, ['src/symcipher/'])
